@@ -188,25 +188,33 @@ def run(pid, tier, seed):
         # ---- monitor 3b: the slot the queued message is filed under (From.Index, all tss-lib looks at) is the slot of the party
         #      whose key equals the transport sender's, or negative (refused by tss-lib): no outsider is given a member's slot
         slot_obs = slot_nonmember = 0
+        bad_slots = []
         for o in ons + [dict(m, enq=m["on_enq"]) for m in mals]:
             if o["enq"] > 0:
                 slot_obs += 1
                 slot_nonmember += o["from"] not in o["ids"]
                 i, ids = o["attr_idx"], o["ids"]
                 if i >= 0 and (i >= len(ids) or ids[i] != o["from"]):
-                    owner = ids[i] if i < len(ids) else None
-                    chk.monitor_hit("", "sender_slot_%s.json" % scheme,
-                                    dict(what="OnMsg queued a message of transport sender %d under slot %d of the session %s, which belongs to party %s: "
-                                              "tss-lib files messages by that index alone, so the sender is taken for that party"
-                                              % (o["from"], i, ids, owner),
-                                         scheme=scheme, session=ids, receiver=o.get("self"), transport_sender=o["from"], sender_is_member=o["from"] in ids,
-                                         queued_under_slot=i, slot_owner=owner, message_type=o.get("url") or o.get("what"), case=o,
-                                         replay="NewParty(%s).Init(%s, 1, ..); OnMsg(<any well-formed message, e.g. Any{TypeUrl: %s}>, from=%d, broadcast); "
-                                                "the message in p.in has GetFrom().Index == %d" % (o.get("self"), ids, o.get("url"), o["from"], i)),
-                                    "%s OnMsg: sender %d (%s) filed under slot %d owned by %s in session %s"
-                                    % (scheme, o["from"], "member" if o["from"] in ids else "not a member", i, owner, ids))
-                    break
-        slots[scheme] = dict(queued_with_slot_checked=slot_obs, of_which_non_members=slot_nonmember,
+                    bad_slots.append(o)
+        if bad_slots:
+            # prefer a witness from a session with a gap and a sender between two members
+            o = sorted(bad_slots, key=lambda o: (not (o["ids"] and min(o["ids"]) < o["from"] < max(o["ids"])), len(o["ids"]), o["from"]))[0]
+            i, ids = o["attr_idx"], o["ids"]
+            owner = ids[i] if i < len(ids) else None
+            chk.monitor_hit("", "sender_slot_%s.json" % scheme,
+                            dict(what="OnMsg queued a message of transport sender %d under slot %d of the session %s, which belongs to party %s: "
+                                      "tss-lib files messages by that index alone, so the sender is taken for that party"
+                                      % (o["from"], i, ids, owner),
+                                 scheme=scheme, session=ids, receiver=o.get("self"), transport_sender=o["from"], sender_is_member=o["from"] in ids,
+                                 queued_under_slot=i, slot_owner=owner, message_type=o.get("url") or o.get("what"), case=o,
+                                 affected=len(bad_slots),
+                                 more=[dict(session=b["ids"], sender=b["from"], slot=b["attr_idx"],
+                                            owner=b["ids"][b["attr_idx"]] if b["attr_idx"] < len(b["ids"]) else None) for b in bad_slots[:12]],
+                                 replay="NewParty(%s).Init(%s, 1, ..); OnMsg(<any well-formed message, e.g. Any{TypeUrl: %s}>, from=%d, broadcast); "
+                                        "the message in p.in has GetFrom().Index == %d" % (o.get("self"), ids, o.get("url"), o["from"], i)),
+                            "%s OnMsg: sender %d (%s) filed under slot %d owned by %s in session %s"
+                            % (scheme, o["from"], "member" if o["from"] in ids else "not a member", i, owner, ids))
+        slots[scheme] = dict(queued_with_slot_checked=slot_obs, of_which_non_members=slot_nonmember, wrong_slot=len(bad_slots),
                              sessions=len(set(tuple(o["ids"]) for o in ons)))
         for m in mals:
             if m["cls_panic"] or m["on_panic"] or (m["on_enq"] > 0 and m["attr_key"] != str(m["from"])):
@@ -276,7 +284,10 @@ def run(pid, tier, seed):
                        "(n=3,t=1 identifiers 1..3; n=4,t=2 boundary identifiers incl. 65534; all signers and t+1 subsets) classified by each "
                        "receiver's ClassifyMsg and compared with tss-lib's routing flag; (b) one message of every type into OnMsg of an idle "
                        "party with the transport sender ranging over session, boundary (0,1,65534,65535) and random identifiers and both "
-                       "broadcast flags; (c) malformed inputs (every table URL of both schemes around foreign/empty content, unknown URLs, "
+                       "broadcast flags; (b') slot lookup: idle parties of sessions with gaps / not starting at the smallest identifier / "
+                       "with 0,255,256,65535 / random, senders = every member, member+-1, midpoints, boundary and random identifiers (below, "
+                       "between and above the members): attributed key and From.Index (the slot tss-lib files the message under) compared "
+                       "with the model's locate, monitor: slot owner's key = sender's key or slot negative; (c) malformed inputs (every table URL of both schemes around foreign/empty content, unknown URLs, "
                        "single-character URL edits, all truncations, bit flips, random bytes of length 0..40) into ClassifyMsg and OnMsg; "
                        "(d) Sign for digests with and without leading zero bytes, of length 19..64, all-zero, all-ones. Non-trivial = "
                        "decodes as a protobuf Any (classification) / reaches the queueing decision / returns a signature; distinct by "
